@@ -466,11 +466,14 @@ json run_scenario(ApiWorld& w, Built& b, json const& sc)
     int const mat = sc["mat"].get<int>();
     int const e0 = sc["e0"].get<int>();
     long const m = sc["m"].get<long>();
-    MatStore mstate(w.mats->host_ref(), 1);
-    ParStore pstate(w.particles->host_ref(), 1);
-    PhysStore phstate(pref, 1);
-    MaterialTrackView material(w.mats->host_ref(), mstate.ref(), TrackSlotId{0});
-    ParticleTrackView particle(w.particles->host_ref(), pstate.ref(), TrackSlotId{0});
+    // three track slots; the scenario runs in one of them, the others must stay untouched
+    size_type const nslot = 3;
+    TrackSlotId const slot{size_type((e0 + m) % 3)};
+    MatStore mstate(w.mats->host_ref(), nslot);
+    ParStore pstate(w.particles->host_ref(), nslot);
+    PhysStore phstate(pref, nslot);
+    MaterialTrackView material(w.mats->host_ref(), mstate.ref(), slot);
+    ParticleTrackView particle(w.particles->host_ref(), pstate.ref(), slot);
     material = MaterialTrackView::Initializer_t{MaterialId(mat)};
     auto set_energy = [&](int pos) {
         ParticleTrackView::Initializer_t pi;
@@ -479,8 +482,35 @@ json run_scenario(ApiWorld& w, Built& b, json const& sc)
         particle = pi;
     };
     set_energy(e0);
-    PhysicsTrackView phys(pref, phstate.ref(), ParticleId(pt), MaterialId(mat), TrackSlotId{0});
-    PhysicsStepView pstep(pref, phstate.ref(), TrackSlotId{0});
+    PhysicsTrackView phys(pref, phstate.ref(), ParticleId(pt), MaterialId(mat), slot);
+    PhysicsStepView pstep(pref, phstate.ref(), slot);
+    // poison every slot's scratch and state
+    for (size_type i = 0; i < phstate.ref().per_process_xs.size(); ++i)
+        phstate.ref().per_process_xs[ItemId<real_type>(i)] = 123.0;
+    for (size_type t = 0; t < nslot; ++t)
+    {
+        phstate.ref().state[TrackSlotId{t}].interaction_mfp = 7.0;
+        phstate.ref().state[TrackSlotId{t}].macro_xs = 77.0;
+    }
+    auto others_untouched = [&] {
+        size_type const mpp = pref.scalars.max_particle_processes;
+        for (size_type t = 0; t < nslot; ++t)
+        {
+            if (t == slot.get())
+                continue;
+            if (phstate.ref().state[TrackSlotId{t}].interaction_mfp != 7.0
+                || phstate.ref().state[TrackSlotId{t}].macro_xs != 77.0)
+                return false;
+            for (size_type p = 0; p < mpp; ++p)
+                if (phstate.ref().per_process_xs[ItemId<real_type>(t * mpp + p)] != 123.0)
+                    return false;
+        }
+        // the unused tail of the scenario's own scratch row
+        for (size_type p = phys.num_particle_processes(); p < mpp; ++p)
+            if (phstate.ref().per_process_xs[ItemId<real_type>(slot.get() * mpp + p)] != 123.0)
+                return false;
+        return true;
+    };
     long const inexact0 = w.inexact;
     json rec;
     rec["e"] = "Pre";
@@ -489,17 +519,15 @@ json run_scenario(ApiWorld& w, Built& b, json const& sc)
     rec["mat"] = mat;
     rec["e0"] = e0;
     rec["m"] = m;
-    // poison the state, then initialise through the public initializer
-    phstate.ref().state[TrackSlotId{0}].interaction_mfp = 7.0;
+    rec["slot"] = int(slot.get());
+    // (the state was poisoned) initialise through the public initializer
     phys = PhysicsTrackView::Initializer_t{};
     rec["hm0"] = phys.has_interaction_mfp();
     phys.interaction_mfp(double(m) / w.LS);
     rec["hm1"] = phys.has_interaction_mfp();
     int const np = phys.num_particle_processes();
-    // poison the scratch
-    for (int p = 0; p < np; ++p)
-        pstep.per_process_xs(ParticleProcessId(p)) = 123.0;
     StepLimit lim = calc_physics_step_limit(material, particle, phys, pstep);
+    rec["others"] = others_untouched();
     json pp = json::array();
     for (int p = 0; p < np; ++p)
         pp.push_back(w.exact(pstep.per_process_xs(ParticleProcessId(p)), 1.0));
@@ -510,7 +538,7 @@ json run_scenario(ApiWorld& w, Built& b, json const& sc)
     rec["step"] = inf ? 0 : w.exact(lim.step, w.LS);
     rec["act"] = safe_label(*b.reg, lim.action);
     rec["m1"] = w.exact(phys.interaction_mfp(), w.LS);
-    rec["rng"] = (phys.eloss_ppid() && e0 > 0) ? w.exact(phstate.ref().state[TrackSlotId{0}].dedx_range, w.LS) : -1;
+    rec["rng"] = (phys.eloss_ppid() && e0 > 0) ? w.exact(phstate.ref().state[slot].dedx_range, w.LS) : -1;
     json sels = json::array();
     for (auto const& sj : sc["sel"])
     {
@@ -535,7 +563,7 @@ json run_scenario(ApiWorld& w, Built& b, json const& sc)
         bool same = (w.exact(pstep.macro_xs(), 1.0) == rec["tot"].get<long>());
         for (int p = 0; p < np; ++p)
             same = same && (w.exact(pstep.per_process_xs(ParticleProcessId(p)), 1.0) == pp[p].get<long>());
-        same = same && (particle.energy().value() == energy_of(e1));
+        same = same && (particle.energy().value() == energy_of(e1)) && others_untouched();
         oj["same"] = same;
         sels.push_back(oj);
     }
@@ -925,7 +953,7 @@ void do_loop_run(json const& run, verif::NdjsonWriter& w)
             nel.push_back(int(prob.mats->get(mid).num_elements()));
         events.push_back({{"e", "LConfig"}, {"run", rid}, {"parts", parts}, {"nel", nel},
                           {"rE_zero", 0.0}, {"rM_zero", 0.0}, {"rX_zero", 0.0}, {"rL_zero", 0.0}, {"rD_zero", 0.0},
-                          {"fixed_step", po.fixed_step},
+                          {"hasfixed", po.fixed_step > 0},
                           {"acts", {{"discrete", safe_label(*reg, pref.scalars.discrete_action())},
                                     {"range", safe_label(*reg, pref.scalars.range_action())},
                                     {"reject", safe_label(*reg, pref.scalars.integral_rejection_action())},
